@@ -1,0 +1,31 @@
+//go:build verif
+
+// Verification hooks (add-only, compiled only with -tags verif).
+package sm4
+
+import "crypto/cipher"
+
+func VerifCryptoBlock(x, y []byte, rk *[32]uint32)   { cryptoBlock(x, y, rk) }
+func VerifCryptoBlockX2(x, y []byte, rk *[32]uint32) { cryptoBlockX2(x, y, rk) }
+func VerifExpandKey(mk []byte, enc, dec *[32]uint32) { expandKey(mk, enc, dec) }
+func VerifNewCipherGeneric(key []byte) (cipher.Block, error) {
+	if len(key) != BlockSize {
+		return nil, KeySizeError(len(key))
+	}
+	return newCipherGeneric(key)
+}
+
+// VerifTables returns copies of the live tables.
+func VerifTables() (sb [256]byte, t0, t1, t2, t3 [256]uint32, c [32]uint32, f [4]uint32) {
+	return sbox, s0, s1, s2, s3, ck, [4]uint32{fk0, fk1, fk2, fk3}
+}
+
+// VerifRoundKeys returns the expanded keys held by a Block created by this package.
+func VerifRoundKeys(b cipher.Block) (enc, dec [32]uint32, ok bool) {
+	switch c := b.(type) {
+	case *sm4Cipher:
+		return c.enc, c.dec, true
+	default:
+		return verifRoundKeysAsm(b)
+	}
+}
